@@ -907,3 +907,61 @@ def run(repo: Repo, ctx) -> None:
     _r8(repo, ctx)
     _r9(repo, ctx)
     _r10(repo, ctx)
+    _r11(repo, ctx)
+
+
+
+def _r11(repo: Repo, ctx) -> None:
+    """C19.R11 every unit cfg::memory prints is one it parses.  The text
+    written by `to_str` / `to_backend_str` goes into the stored JSON and the
+    CONFIGURE script and comes back through `ConfigMemory(text)`: a unit
+    suffix the printer can emit that the parser's pattern (or its unit
+    arms) does not list makes a stored value unloadable."""
+    import re as _re
+    ctx.floor('C19.R11', 4)
+    cls = repo.cls('edb.ir.statypes.ConfigMemory')
+    pat = cls.assign_fields.get('_parser')
+    txt = None
+    if isinstance(pat, ast.Call) and pat.args and isinstance(
+            pat.args[0], ast.Constant):
+        txt = pat.args[0].value
+    mm = _re.search(r'\(\?P<unit>([^)]*)\)', txt or '')
+    if not mm:
+        raise AnalysisError('C19.R11: unit group of ConfigMemory._parser '
+                            'not found')
+    accepted = {u.strip() for u in mm.group(1).split('|')}
+    init = cls.methods.get('__init__')
+    arms = {x.value for x in ast.walk(init.node)
+            if isinstance(x, ast.Constant) and isinstance(x.value, str)
+            and x.value in accepted} if init else set()
+    for u in sorted(accepted):
+        ctx.ob('C19.R11', f'ConfigMemory.__init__:unit={u}', u in arms,
+               f'the pattern accepts the unit {u} but __init__ has no arm '
+               f'for it', init.loc if init else cls.loc, sample='arm present')
+    for name in ('to_str', 'to_backend_str'):
+        f = cls.methods.get(name)
+        if f is None:
+            raise AnalysisError(f'C19.R11: ConfigMemory.{name} not found')
+        ctx.saw(f)
+        from ..shapes import reach
+        emitted = set()
+        for node in reach(repo, f):
+            for js in ast.walk(node):
+                if isinstance(js, ast.JoinedStr) and js.values and isinstance(
+                        js.values[-1], ast.Constant):
+                    emitted.add(str(js.values[-1].value))
+                elif isinstance(js, ast.Constant) and isinstance(
+                        js.value, str) and _re.fullmatch(
+                            r'[A-Za-z]{1,4}B|B|[kKMGTPE]i?B', js.value):
+                    emitted.add(js.value)
+        if not emitted:
+            raise AnalysisError(f'C19.R11: no unit suffix found in {name}')
+        if name == 'to_str':
+            for u in sorted(emitted):
+                ctx.ob('C19.R11', f'ConfigMemory.to_str:unit={u}',
+                       u in accepted,
+                       f'to_str can print the unit `{u}`, which the '
+                       f'parser pattern ({sorted(accepted)}) rejects: a '
+                       f'value stored with it cannot be loaded back from '
+                       f'JSON or replayed from the CONFIGURE script',
+                       f.loc, sample=f'{u} accepted')
